@@ -6,6 +6,7 @@ FeedVerif/Model/Mixin.lean (stage 1: version detection on the root element).
 import FeedVerif.Model.Json
 import FeedVerif.Model.Mixin
 import FeedVerif.Props.C20
+import FeedVerif.Props.C19
 import FeedVerif.Lemmas.Mixin
 
 namespace FeedVerif.Json
@@ -430,6 +431,33 @@ def dispOpen (hn : Str) : Option Str :=
   else if (dateKey hn).isSome then none
   else if isTitle hn then some (S "title") else (contentKey hn).map (·.1)
 
+/-- the stage-4 kinds -/
+def lgOk (kind : Str) : Bool := kind == S "link" || kind == S "guid"
+
+theorem startLG_isOk (o : Ops) (c : Core) (kind : Str) (a : List (Str × Str)) : (startLG o c kind a).isOk = lgOk kind := by
+  unfold startLG lgOk
+  by_cases h1 : (kind == S "link") = true
+  · simp only [h1, ↓reduceIte, Bool.true_or]
+    unfold startLink
+    simp only
+    split
+    · rfl
+    · split <;> rfl
+  · simp only [h1, Bool.false_eq_true, ↓reduceIte, Bool.false_or]
+    by_cases h2 : (kind == S "guid") = true
+    · simp only [h2, ↓reduceIte]; rfl
+    · simp only [h2, Bool.false_eq_true, ↓reduceIte]; rfl
+
+theorem endLG_isOk (o : Ops) (s : MSt) (kind : Str) :
+    (match endLG o s kind with | .ok _ => true | .unmodelled _ => false) = lgOk kind := by
+  unfold endLG lgOk
+  by_cases h1 : (kind == S "link") = true
+  · simp only [h1, ↓reduceIte, Bool.true_or]
+  · simp only [h1, Bool.false_eq_true, ↓reduceIte, Bool.false_or]
+    by_cases h2 : (kind == S "guid") = true
+    · simp only [h2, ↓reduceIte]
+    · simp only [h2, Bool.false_eq_true, ↓reduceIte]
+
 /-- one event of the version sub-machine; `none` = outside the model's domain -/
 def vStep (loose : Bool) (x : VX) : MEv → Option VX
   | .start tag attrs =>
@@ -439,6 +467,9 @@ def vStep (loose : Bool) (x : VX) : MEv → Option VX
     let h := hnV v1 tag
     match extKind h with
     | some kind => if extOk kind a then some ⟨v1, some none⟩ else none      -- stage 3: a summary / description / content element opens
+    | none =>
+    match lgKind h with
+    | some kind => if lgOk kind then some ⟨v1, none⟩ else none               -- stage 4: link, guid / id — no influence on the version
     | none =>
     if (dispatchCore { version := v1.version, nsMap := v1.nsMap } h a).isOk then some ⟨⟨dispVer v1.version h a, v1.nsMap⟩, (dispOpen h).map some⟩ else none
   | .stop tag =>
@@ -453,7 +484,10 @@ def vStep (loose : Bool) (x : VX) : MEv → Option VX
           | _, _ => none))
     | none =>
       if (contentEndKey h).isSome || (extKind h).isSome then none
-      else if h == S "channel" || h == S "feed" || h == S "item" || h == S "entry" || (dateKey h).isSome || !hasEnd h then some x else none
+      else if h == S "channel" || h == S "feed" || h == S "item" || h == S "entry" then some x
+      else match lgKind h with
+      | some kind => if lgOk kind then some x else none
+      | none => if (dateKey h).isSome || !hasEnd h then some x else none
   | .data _ => some x
   | .ns p u => some ⟨trackV x.v p u, x.openC⟩
 
@@ -596,6 +630,21 @@ theorem dispOpen_plain (h k : Str) (hk : dispOpen h = some k) : isPlainKey k = t
         unfold contentEndKey
         exact hk
 
+/-- stage 4: a link / guid end handler leaves version, prefix map and `incontent` alone -/
+theorem endLG_proj (o : Ops) (s : MSt) (kind : Str) (hc : s.c.incontent = false) :
+    (match endLG o s kind with | .ok s' => some (projX s') | .unmodelled _ => none) =
+      if lgOk kind then some ⟨proj s.c, none⟩ else none := by
+  have hok := endLG_isOk o s kind
+  cases h : endLG o s kind with
+  | unmodelled w => rw [h] at hok; simp only at hok; simp [← hok]
+  | ok s' =>
+    rw [h] at hok
+    simp only at hok
+    obtain ⟨c1, st, hf, hs', _⟩ := endLG_ok o s s' kind h
+    have hic : c1.incontent = false := hf.2.2.2.2.2.2.2.1.trans hc
+    simp only [← hok, ↓reduceIte, hs', projX, endFinish, hic, Bool.false_eq_true, Option.some.injEq, VX.mk.injEq, and_true]
+    simp only [proj, hf.2.1, hf.2.2.1]
+
 theorem step_proj (o : Ops) (s : MSt) (e : MEv) :
     (match mstep o s e with | .ok s' => some (projX s') | .unmodelled _ => none) = vStep o.loose (projX s) e := by
   cases e with
@@ -630,6 +679,27 @@ theorem step_proj (o : Ops) (s : MSt) (e : MEv) :
         refine ⟨?_, ?_⟩
         · rw [← hp.1]; simp only [proj, hf.2.2.2.1, hf.2.2.2.2.1]
         · simp [topPlain, hes, hnp]
+    | none =>
+    simp only
+    cases hlk : lgKind (hnV (declFold (attrs.map (normAttr o.loose)) (proj s.c)) tag) with
+    | some kind =>
+      -- stage 4: a link / guid start handler
+      simp only
+      have hok := startLG_isOk o (startPre o s.c tag attrs).1 kind (dictOf (attrs.map (normAttr o.loose)))
+      cases hr : startLG o (startPre o s.c tag attrs).1 kind (dictOf (attrs.map (normAttr o.loose))) with
+      | error w =>
+        rw [hr] at hok
+        simp only [applyExt]
+        rw [← hok]; rfl
+      | ok r =>
+        obtain ⟨c', es⟩ := r
+        rw [hr] at hok
+        have hf := startLG_frame4 _ _ _ _ _ _ hr
+        simp only [applyExt]
+        rw [← hok]
+        have hic : c'.incontent = false := hf.2.2.2.2.2.2.2.1.trans (by rw [startPre_incontent]; exact hc')
+        simp only [Except.isOk, Except.toBool, ↓reduceIte, projX, hic, Bool.false_eq_true, Option.some.injEq, VX.mk.injEq, and_true]
+        rw [← hp.1]; simp only [proj, hf.2.1, hf.2.2.1]
     | none =>
     simp only
     have hok := dispatch_isOk (startPre o s.c tag attrs).1
@@ -736,6 +806,13 @@ theorem step_proj (o : Ops) (s : MSt) (e : MEv) :
     have e4 : ∀ (c : Core) (k : Str) (v : V), proj (setContext c k v) = proj c := by
       intro c k v; have := setContext_ver c k v; simp only [proj, this.1, this.2]
     have hpx : projX s = ⟨proj s.c, none⟩ := by simp [projX, hc']
+    cases hlk : lgKind (hnV (proj s.c) tag) with
+    | some kind =>
+      -- stage 4: a link / guid end handler
+      obtain ⟨_, _, _, _, _, _, n2, n3, n4, n5⟩ := lgKind_facts _ kind hlk
+      simp only [n2, n3, n4, n5, Bool.or_self, Bool.false_eq_true, ↓reduceIte, hpx]
+      exact endLG_proj o s kind hc'
+    | none =>
     cases hdk : dateKey (hnV (proj s.c) tag) with
     | some kp =>
       by_cases hA : (hnV (proj s.c) tag == S "channel") = true <;> by_cases hB : (hnV (proj s.c) tag == S "feed") = true <;>
@@ -934,7 +1011,7 @@ theorem date_start (o : Ops) (s : MSt) (tag k pk : Str) (hk : dateKey (handlerNa
     unfold handlerName; rw [hpre.2.2.1]
   obtain ⟨n1, n2, n3, n4, n5⟩ := dateKey_not_structural _ _ hk
   refine ⟨(startPre o s.c tag []).1, ?_, hpre.1, hpre.2.1, hpre.2.2.1, by rw [startPre_incontent]; exact hnc⟩
-  simp only [mstep, startTag, hnc, Bool.false_eq_true, ↓reduceIte, startTag0, hh, hpre.2.2.2, dateKey_not_ext _ _ hk]
+  simp only [mstep, startTag, hnc, Bool.false_eq_true, ↓reduceIte, startTag0, hh, hpre.2.2.2, dateKey_not_ext _ _ hk, dateKey_not_lg _ _ hk]
   unfold dispatchCore
   simp only [n1, n2, n3, n4, n5, Bool.false_eq_true, ↓reduceIte, Bool.or_self, hk, Option.isSome_some, Option.map_some, applyDispatch]
 
@@ -959,7 +1036,7 @@ theorem date_stop (o : Ops) (s : MSt) (tag k pk : Str) (ps : List Str) (rest : L
     unfold pop
     simp only [hst, bne_self_eq_false, Bool.false_eq_true, ↓reduceIte, Bool.not_true, hu, Bool.false_and, hp, hin, hen, updHead]
   refine ⟨⟨endFinish o (setContext (pop o s k).c pk (.t (parsedOf o (o.fix (stripS ps.flatten))))), (pop o s k).stack⟩, ?_, ?_, ?_, ?_⟩
-  · simp only [mstep, endTag, hnc, dateKey_not_content _ _ hk, dateKey_not_ext _ _ hk, Option.isSome_none, Bool.or_self, endTag0, n2, n3, n4, n5, Bool.or_self, Bool.false_eq_true, ↓reduceIte, hk, hv, parsedOf]
+  · simp only [mstep, endTag, hnc, dateKey_not_content _ _ hk, dateKey_not_ext _ _ hk, dateKey_not_lg _ _ hk, Option.isSome_none, Bool.or_self, endTag0, n2, n3, n4, n5, Bool.or_self, Bool.false_eq_true, ↓reduceIte, hk, hv, parsedOf]
   · simp only [hpop]
   · simp only [hpop, endFinish, setContext, hin, ↓reduceIte]
   · refine ⟨{ (writeEntry k (o.fix (stripS ps.flatten)) s.c.depth e0) with d := fset (writeEntry k (o.fix (stripS ps.flatten)) s.c.depth e0).d pk (.t (parsedOf o (o.fix (stripS ps.flatten)))) }, ?_, ?_⟩
@@ -1080,7 +1157,7 @@ theorem atom_entry_title_verbatim (o : Ops) (s : MSt) (tag t : Str) (e0 : Entry)
   let c0 := (startPre o s.c tag []).1
   let c1 := (pushContent c0 (S "title") [] (S "text/plain") (c0.infeed || c0.inentry)).1
   have h1 : mstep o s (.start tag []) = .ok ⟨c1, ⟨S "title", true, []⟩ :: s.stack⟩ := by
-    simp only [mstep, startTag, hnc, Bool.false_eq_true, ↓reduceIte, startTag0, hh, hpre.2.2.2.1, isTitle_not_ext _ ht]
+    simp only [mstep, startTag, hnc, Bool.false_eq_true, ↓reduceIte, startTag0, hh, hpre.2.2.2.1, isTitle_not_ext _ ht, isTitle_not_lg _ ht]
     unfold dispatchCore
     simp only [f1, f2, f3, f4, f5, f6, ht, Bool.false_eq_true, ↓reduceIte, Bool.or_self, Option.isSome_none]
     have hx : startContent c0 (S "title") [] (S "text/plain") (c0.infeed || c0.inentry) = .ok (c1, some ⟨S "title", true, []⟩) := by
@@ -1211,5 +1288,133 @@ example :
      sumOf (mrun o start [.start (S "summary") [], .data (S "S"), .stop (S "summary"), .start (S "content") [], .data (S "C"), .stop (S "content")]),
      sumOf (mrun o start [.start (S "abstract") [], .data (S "A"), .stop (S "abstract")]))
     = (some (.s (S "SHORT")), 1, some (.s (S "SHORT")), 1, some (.s (S "S")), some (.s (S "A"))) := by decide +kernel
+
+end FeedVerif.Mixin
+
+
+namespace FeedVerif.Mixin
+
+/-! ### id and link of an entry (M-mixin stage 4) -/
+
+theorem lg_eqs : (S "link" == S "link") = true ∧ (S "guid" == S "link") = false ∧ (S "guid" == S "guid") = true ∧
+    canonKey (S "id") = S "id" ∧ canonKey (S "link") = S "link" ∧ canBeRelativeUri.contains (S "id") = true ∧
+    (S "id" == S "category" || S "id" == S "tags" || S "id" == S "itunes_keywords") = false ∧
+    (S "guidislink" == S "id") = false ∧ (S "link" == S "id") = false ∧ (S "guidislink" == S "link") = false ∧ (S "id" == S "link") = false := by decide +kernel
+
+/-- `_start_guid` / `_start_id`: the flag is the `isPermaLink` attribute (default true), the element pushed is `id` -/
+theorem guid_start (o : Ops) (c : Core) (a : List (Str × Str)) :
+    startLG o c (S "guid") a = .ok ({ c with guidislink := ((sget a (S "ispermalink")).getD (S "true") == S "true") }, [⟨S "id", true, []⟩]) := by
+  obtain ⟨_, k2, k3, _⟩ := lg_eqs
+  unfold startLG
+  simp only [k2, k3, Bool.false_eq_true, ↓reduceIte]
+
+theorem dsetDefault_other (d : D) (k k' : Str) (v : V) (hne : (k' == k) = false) : dget (dsetDefault d k' v) k = dget d k := by
+  unfold dsetDefault
+  split
+  · rfl
+  · exact dget_dset_other d k k' v hne
+
+theorem dsetDefault_absent (d : D) (k : Str) (v : V) (h : dget d k = none) : dsetDefault d k v = dset d k v := by
+  unfold dsetDefault; simp [h]
+
+/-- **A guid that is not a permalink is stored verbatim**: with `isPermaLink="false"` (the flag false), for every text, the entry's `id` is
+`repair(strip(text))` — `_urljoin` is not applied to it — and the entry's `link` is left exactly as it was. -/
+theorem guid_not_permalink_verbatim (o : Ops) (s : MSt) (ps : List Str) (rest : List Elem) (e0 : Entry) (es : List Entry)
+    (hst : s.stack = ⟨S "id", true, ps⟩ :: rest) (hin : s.c.inentry = true) (hen : s.c.entries = e0 :: es)
+    (hg : s.c.guidislink = false) (hfresh : e0.depths.find? (·.1 == S "id") = none) :
+    dget (contextD (endGuidCore o s)) (S "id") = some (.s (o.fix (stripS ps.flatten))) ∧
+    dget (contextD (endGuidCore o s)) (S "link") = dget e0.d (S "link") := by
+  obtain ⟨_, _, _, k4, _, _, k7, k8, _, k10, k11⟩ := lg_eqs
+  have hpop : pop o s (S "id") = ⟨{ s.c with entries := writeEntry (S "id") (o.fix (stripS ps.flatten)) s.c.depth e0 :: es }, rest⟩ := by
+    unfold pop
+    simp only [hst, bne_self_eq_false, Bool.false_eq_true, ↓reduceIte, Bool.not_true, hg, Bool.or_false, Bool.and_false, k7, hin, hen, updHead]
+  have hw : (writeEntry (S "id") (o.fix (stripS ps.flatten)) s.c.depth e0).d = dset e0.d (S "id") (.s (o.fix (stripS ps.flatten))) := by
+    unfold writeEntry
+    simp only [hfresh, Option.map_none, ↓reduceIte, fset, k4]
+  unfold endGuidCore
+  simp only [hpop, hg, Bool.false_and, Bool.false_eq_true, ↓reduceIte]
+  unfold saveDefault contextD
+  simp only [hin, ↓reduceIte, updHead, List.head?_cons, Option.map_some, Option.getD_some, hw]
+  exact ⟨by rw [dsetDefault_other _ _ _ _ k8]; exact dget_dset_same _ _ _,
+         by rw [dsetDefault_other _ _ _ _ k10]; exact dget_dset_other _ _ _ _ k11⟩
+
+/-- the value `pop("id")` computes for a permalink guid: the stripped text joined against the current base (when non-empty), repaired -/
+def guidValue (o : Ops) (c : Core) (ps : List Str) : Str :=
+  o.fix (if !(stripS ps.flatten).isEmpty then o.join c.base.baseuri.toList (stripS ps.flatten) else stripS ps.flatten)
+
+/-- **A permalink guid is the entry's link when the entry has none** (`_end_guid`): with the flag true (no `isPermaLink` attribute, or
+`"true"`), for every text, in an entry that has no `link` yet, both `id` and `link` of the entry are the text resolved against the
+current base. -/
+theorem guid_permalink_is_link (o : Ops) (s : MSt) (ps : List Str) (rest : List Elem) (e0 : Entry) (es : List Entry)
+    (hst : s.stack = ⟨S "id", true, ps⟩ :: rest) (hin : s.c.inentry = true) (hen : s.c.entries = e0 :: es)
+    (hg : s.c.guidislink = true) (hfresh : e0.depths.find? (·.1 == S "id") = none) (hnl : dget e0.d (S "link") = none) :
+    dget (contextD (endGuidCore o s)) (S "id") = some (.s (guidValue o s.c ps)) ∧
+    dget (contextD (endGuidCore o s)) (S "link") = some (.s (guidValue o s.c ps)) := by
+  obtain ⟨_, _, _, k4, _, k6, k7, k8, k9, k10, k11⟩ := lg_eqs
+  have hv : popValue o s (S "id") = some (guidValue o s.c ps) := by
+    unfold popValue guidValue
+    simp only [hst, bne_self_eq_false, Bool.false_eq_true, ↓reduceIte, k6, hg, Bool.or_true, Bool.and_true, Bool.true_and]
+  have hpop : pop o s (S "id") = ⟨{ s.c with entries := writeEntry (S "id") (guidValue o s.c ps) s.c.depth e0 :: es }, rest⟩ := by
+    unfold pop guidValue
+    simp only [hst, bne_self_eq_false, Bool.false_eq_true, ↓reduceIte, Bool.not_true, hg, Bool.or_true, Bool.and_true, Bool.true_and, k6, k7, hin, hen, updHead]
+  have hw : (writeEntry (S "id") (guidValue o s.c ps) s.c.depth e0).d = dset e0.d (S "id") (.s (guidValue o s.c ps)) := by
+    unfold writeEntry
+    simp only [hfresh, Option.map_none, ↓reduceIte, fset, k4]
+  have hl1 : dget (dsetDefault (dset e0.d (S "id") (.s (guidValue o s.c ps))) (S "guidislink")
+      (.b (true && (dget (dset e0.d (S "id") (.s (guidValue o s.c ps))) (S "link")).isNone))) (S "link") = none := by
+    rw [dsetDefault_other _ _ _ _ k10, dget_dset_other _ _ _ _ k11]; exact hnl
+  unfold endGuidCore
+  simp only [hpop, hv, hg, ↓reduceIte]
+  unfold saveDefault contextD
+  simp only [hin, ↓reduceIte, updHead, List.head?_cons, Option.map_some, Option.getD_some, hw]
+  rw [dsetDefault_absent _ _ _ hl1]
+  exact ⟨by rw [dget_dset_other _ _ _ _ k9, dsetDefault_other _ _ _ _ k8]; exact dget_dset_same _ _ _, dget_dset_same _ _ _⟩
+
+theorem contextD_putContext (c : Core) (d : D) (e0 : Entry) (es : List Entry) (hin : c.inentry = true) (hen : c.entries = e0 :: es) :
+    contextD (putContext c d) = d := by
+  unfold putContext contextD
+  simp [hin, hen, updHead]
+
+/-- **The link of an entry is the (resolved) href of its alternate HTML link** (`_start_link`): for every attribute dict whose completed
+form (defaults for rel / type added) says `rel="alternate"` with an HTML-ish type and carries a reference, in an entry whose `links` is
+absent or the parser's own list, the entry's `link` becomes the stored — resolved, see Props/C05 `link_href_is_join` — href, and the
+dict is appended to `links`; nothing is pushed. -/
+theorem alternate_link_is_entry_link (o : Ops) (c : Core) (a : List (Str × Str)) (h : Str) (e0 : Entry) (es : List Entry)
+    (hin : c.inentry = true) (hen : c.entries = e0 :: es)
+    (hl : dget e0.d (S "links") = none ∨ ∃ items, dget e0.d (S "links") = some (.l items))
+    (halt : isEntryLink (linkAttrs o c a) = true) (hh : sget (linkAttrs o c a) (S "href") = some h) :
+    ∃ c', startLG o c (S "link") a = .ok (c', []) ∧ dget (contextD c') (S "link") = some (.s h) ∧
+      ∃ items, dget (contextD c') (S "links") = some (.l (items ++ [(linkAttrs o c a).map fun kv => (kv.1, some kv.2)])) := by
+  obtain ⟨k1, _, _, _, k5, _⟩ := lg_eqs
+  have kl : (S "link" == S "links") = false := by decide +kernel
+  have hctx : contextD c = e0.d := by unfold contextD; simp [hin, hen]
+  unfold startLG
+  simp only [k1, ↓reduceIte]
+  unfold startLink
+  simp only [hctx, halt, Bool.or_true, hh, ↓reduceIte]
+  have hcp : ∀ d, contextD (putContext { c with isentrylink := true } d) = d := fun d => contextD_putContext _ d e0 es hin hen
+  rcases hl with hl | ⟨items, hl⟩
+  · simp only [appendLink, hl]
+    refine ⟨_, rfl, ?_, [], ?_⟩
+    · rw [hcp]; unfold fset; rw [k5]; exact dget_dset_same _ _ _
+    · rw [hcp]; unfold fset; rw [k5, dget_dset_other _ _ _ _ kl]; simpa using dget_dset_same _ _ _
+  · simp only [appendLink, hl]
+    refine ⟨_, rfl, ?_, items, ?_⟩
+    · rw [hcp]; unfold fset; rw [k5]; exact dget_dset_same _ _ _
+    · rw [hcp]; unfold fset; rw [k5, dget_dset_other _ _ _ _ kl]; exact dget_dset_same _ _ _
+
+/-- non-vacuity and the guard of the source fingerprints: an RSS item with a permalink guid and no link; one with a link before the
+guid (the link stays, `guidislink` is false); one with `isPermaLink="false"` -/
+example :
+    let o : Ops := { base := ⟨fun _ r => r, fun u => u, fun b r => b ++ r⟩, join := fun b u => b ++ S "|" ++ u, fix := id, loose := false }
+    let start : MSt := { c := { entries := [{}], inentry := true, infeed := true, version := S "rss20", base := ⟨"http://b/", none, ["http://b/"], [none]⟩ } }
+    let get (k : String) (r : Outcome) : Option V := match r with | .ok s' => s'.c.entries.head?.bind fun e => dget e.d (S k) | .unmodelled _ => none
+    (get "link" (mrun o start [.start (S "guid") [], .data (S " g1 "), .stop (S "guid")]),
+     get "guidislink" (mrun o start [.start (S "guid") [], .data (S " g1 "), .stop (S "guid")]),
+     get "link" (mrun o start [.start (S "link") [], .data (S "L"), .stop (S "link"), .start (S "guid") [], .data (S "g2"), .stop (S "guid")]),
+     get "guidislink" (mrun o start [.start (S "link") [], .data (S "L"), .stop (S "link"), .start (S "guid") [], .data (S "g2"), .stop (S "guid")]),
+     get "id" (mrun o start [.start (S "guid") [(S "isPermaLink", S "false")], .data (S "g3"), .stop (S "guid")]),
+     get "link" (mrun o start [.start (S "guid") [(S "isPermaLink", S "false")], .data (S "g3"), .stop (S "guid")]))
+    = (some (.s (S "http://b/|g1")), some (.b true), some (.s (S "http://b/|L")), some (.b false), some (.s (S "g3")), none) := by decide +kernel
 
 end FeedVerif.Mixin
